@@ -135,6 +135,40 @@ def _rebuild_from_state(w, sc, disk, holder):
     w.mc, w.atoms, w.calc = mc, mc.atoms, mc.atoms.calc
 
 
+def scribble(w) -> int:
+    """After a simulation has finished, its user edits in place every array it can reach through the public surface
+    (settings, move labels, operation masks, exchange atoms).  A later simulation built with the same seed and
+    configuration in the same process must not notice: nothing may be shared between simulations behind the user's
+    back (default arguments, module-level arrays)."""
+    n = 0
+    mc = w.mc
+    for name in ("external_stress", "delta", "masses_scaling_power", "shaped_masses"):
+        v = getattr(mc, name, None)
+        if isinstance(v, np.ndarray) and v.dtype.kind == "f" and v.flags.writeable:
+            v += 0.37
+            n += 1
+    ex = getattr(mc, "exchange_atoms", None)
+    if ex is not None and len(ex):
+        ex.positions += 0.37
+        n += 1
+    if hasattr(mc, "moves"):
+        from simkit.world import World
+
+        for st in mc.moves.values():
+            for lf in World.leaves_of(st.move):
+                lab = getattr(lf, "labels", None)
+                if isinstance(lab, np.ndarray) and lab.flags.writeable:
+                    lab += 3
+                    n += 1
+                op = getattr(lf, "operation", None)
+                for o in [op] + list(getattr(op, "operations", []) or []):
+                    m = getattr(o, "mask", None)
+                    if isinstance(m, np.ndarray) and m.flags.writeable:
+                        m[...] = ~m
+                        n += 1
+    return n
+
+
 def run_digest(sc: dict, junk: int, holder: dict | None = None) -> dict:
     """Execute the scenario; -> {'events': [...], 'files': {...}, 'touched': [...], 'error': ...}"""
     import warnings
@@ -154,9 +188,13 @@ def run_digest(sc: dict, junk: int, holder: dict | None = None) -> dict:
     w.mc.close()
     files = {n: hashlib.sha256(f.durable.encode()).hexdigest()[:16] for n, f in sorted(disk.files.items())}
     final = _h(w.atoms.positions, np.asarray(w.atoms.cell.array), w.atoms.numbers, w.mc.step_count)
+    try:
+        nscribbled = scribble(w)
+    except Exception:  # noqa: BLE001 - read-only or unusual objects: nothing to edit
+        nscribbled = 0
     return {"events": [list(e) for e in mon.events], "files": files, "touched": [list(t) for t in mon.touched],
             "final": final, "harness_error": w.result.harness_error,
-            "nevents": len(mon.events)}
+            "nevents": len(mon.events), "scribbled": nscribbled}
 
 
 def first_difference(a: dict, b: dict) -> str | None:
@@ -246,6 +284,7 @@ class C06(HistoryCampaign):
         holder = {}
         a = run_digest(sc, junk=1, holder=holder)
         b = run_digest(sc, junk=2, holder=holder)
+        res.count("fault.inplace_edits_of_finished_simulation", int(a.get("scribbled", 0)))
         for r in (a, b):
             if r.get("harness_error"):
                 res.harness_error = r["harness_error"]
